@@ -57,6 +57,11 @@ def main(pid, prop_module, theorems, own_props, rule, known_classes_doc):
     # ---- 4. the model's predictions
     exprs = [(it[0], it[5]) for it in items]
     exprs.append(("__wf", "(wf_key, wf_key_known, wf_data, wf_data_known)"))
+    tag = "c14" if pid == "C14" else "c15"
+    exprs.append(("__off_fns", f"{tag}_offending_fns"))
+    exprs.append(("__off_impls", f"{tag}_offending_impls"))
+    if pid == "C15":
+        exprs.append(("__off_fields", "public_fields"))
     if grid:
         exprs += [(f"g{i}", f"(table_impl MSend ({c}), table_impl MSync ({c}))") for i, (c, _) in enumerate(grid)]
         exprs += [("__cex_send", "firstn 3 (counterexamples MSend)"), ("__cex_sync", "firstn 3 (counterexamples MSync)")]
@@ -104,6 +109,16 @@ def main(pid, prop_module, theorems, own_props, rule, known_classes_doc):
                                    "program": corpus.prog(it[3]), "twin": corpus.prog(it[4]), "others": demanded_fail[1:]})
         lines.append(f"VIOLATION property={pid} replay={fn}")
         violations += len(demanded_fail)
+    elif any(vals.get(k) not in (None, "[]") for k in ("__off_fns", "__off_impls", "__off_fields")):
+        # an item of the current API breaks a rule of the table: the item itself is the failing input (a program that uses
+        # it compiles against this tree)
+        fn = hl.write_replay(pid, {"property": pid, "kind": "offending-api-item",
+                                   "functions (owner, name, trait)": vals.get("__off_fns"),
+                                   "trait impls (type, trait)": vals.get("__off_impls"),
+                                   "public fields": vals.get("__off_fields"),
+                                   "rules": "coq/ApiModel.v: K1-K7 (C14) / E1-E7 (C15); the table coq/ApiTable.v was regenerated from this tree"})
+        lines.append(f"VIOLATION property={pid} replay={fn}")
+        violations += 1
     elif grid and any(cex.get(k) not in (None, "[]") for k in cex):
         fn = hl.write_replay(pid, {"property": pid, "kind": "type-with-weaker-auto-trait-bound-than-std",
                                    "counterexamples_send": cex.get("__cex_send"), "counterexamples_sync": cex.get("__cex_sync")})
